@@ -12,6 +12,7 @@ from fractions import Fraction
 
 from . import nf as nfm
 
+INT_TYPES = ("u8", "u16", "u32", "u64", "u128", "usize", "i8", "i16", "i32", "i64", "i128", "isize")
 ONE = {(): Fraction(1)}
 ZERO = {}
 
@@ -80,6 +81,10 @@ def rat(n, res=None, subst=None, _depth=0, alias=None):
     if k == "Unary" and n["op"] == "-":
         a = rat(n["e"], res, subst, _depth, alias)
         return (p_add(ZERO, a[0], -1), a[1])
+    if k == "Binary" and n["op"] == "/" and n.get("ty") in INT_TYPES:
+        # integer division truncates: it is not the rational quotient, the whole quotient stays one opaque atom
+        name = nfm.nf(n, True, alias=alias, res=res)
+        return (p_atom("intdiv:" + name), ONE)
     if k == "Binary" and n["op"] in ("+", "-", "*", "/"):
         a = rat(n["l"], res, subst, _depth, alias)
         b = rat(n["r"], res, subst, _depth, alias)
